@@ -382,6 +382,10 @@ func (s *Session) onPlay(resp *rtsp.Response, req *rtsp.Request) {
 }
 
 func (s *Session) onPause(resp *rtsp.Response, req *rtsp.Request) {
+	if s.status != statusPlaying { // 只有播放状态才允许暂停
+		resp.StatusCode = rtsp.StatusMethodNotValidInThisState
+		return
+	}
 	if s.status == statusPlaying {
 		s.paused = true
 	}
